@@ -309,6 +309,18 @@ def run(ctx):
                     detail=pathx.desc(thir.peel(thir.root(unit))), fail="the default filterer no longer returns Ok(true): without a configured filter every event is rejected")
         cf = ctx.anchor_one("R01.1", "<ChangeableFilterer as Filterer>::check_event", facts.trait_methods("watchexec::filter::ChangeableFilterer", "Filterer", "check_event"))
         d1 = pathx.desc(thir.peel(thir.root(cf)))
+        if d1 == "{..}":
+            # the same forwarding with named temporaries (`let f = self.current(); let v = f.check_event(..); drop(f); v`): locals read through,
+            # statements that only bind or drop a local skipped, helpers spliced by the normaliser
+            rt_ = thir.peel(thir.root(cf))
+            with pathx.reading_through(rt_):
+                e_ = rt_
+                while isinstance(e_, dict) and e_.get("k") == "block" and e_.get("e") is not None and all(
+                        isinstance(x_, dict) and ((x_.get("k") == "let" and x_.get("else") is None) or
+                                                  pathx.desc(x_.get("e") if x_.get("k") in ("expr", "stmt") and isinstance(x_.get("e"), dict) else x_).startswith(("mem::drop(", "drop(")))
+                        for x_ in e_.get("s", [])):
+                    e_ = thir.peel(e_["e"])
+                d1 = pathx.desc(e_).replace("^", "")
         ctx.require(d1 in ("Filterer::check_event(Arc::as_ref(Changeable::get(self.0)), event, priority)", "Filterer::check_event(AsRef::as_ref(Changeable::get(self.0)), event, priority)"), "R01.1", "changeable-filter-forwards",
                     "the configuration's filterer forwards (event, priority) to the filterer currently stored and returns its verdict", cf.loc(cf.line), detail=d1)
         ar = [f for f in facts.fns_matching(r"^<alloc::sync::Arc<T> as watchexec::filter::Filterer>::check_event$")]
